@@ -13,6 +13,7 @@ pub mod c10;
 pub mod c13;
 pub mod c15;
 pub mod c16;
+pub mod c17;
 pub mod c18;
 
 pub fn level_of(id: &str) -> &'static str {
@@ -33,6 +34,7 @@ pub fn run(ctx: &Ctx) -> bool {
         "C13" => c13::run(ctx),
         "C15" => c15::run(ctx),
         "C16" => c16::run(ctx),
+        "C17" => c17::run(ctx),
         "C18" => c18::run(ctx),
         _ => return false,
     }
@@ -50,6 +52,7 @@ pub fn replay(ctx: &Ctx, id: &str, kind: &str, case: &J) -> Vec<Fail> {
         "C13" => c13::replay(ctx, kind, case),
         "C15" => c15::replay(ctx, kind, case),
         "C16" => c16::replay(ctx, kind, case),
+        "C17" => c17::replay(ctx, kind, case),
         "C18" => c18::replay(ctx, kind, case),
         _ => vec![Fail::new("harness", format!("no replay for property {}", id))],
     }
